@@ -244,6 +244,76 @@ pub fn generate(kind: &str, thorough: bool, seed: u64, corpus: &str, out: &mut O
                 for t in random_docs(&si, &mut rng, 50, 5) { crate::valcases::rules_case(&si, &t, &rules, &tmp, out); }
             }
         }
+        "c08" => {
+            let tmp = tmpdir();
+            let rules = ["ValuesOfCorrectType"];
+            // expected types: 8 base types x 11 wrapper shapes (<= 3 wrappers, no `!!`)
+            let bases = ["Int", "Float", "String", "Boolean", "ID", "Custom", "Color", "In"];
+            let shapes = ["", "L", "N", "LL", "LN", "NL", "LLL", "LLN", "LNL", "NLL", "NLN"];
+            fn wrap(base: &str, shape: &str) -> String {
+                // shape read outside-in: L = list, N = non-null
+                match shape.chars().next() {
+                    None => base.to_string(),
+                    Some('L') => format!("[{}]", wrap(base, &shape[1..])),
+                    Some(_) => format!("{}!", wrap(base, &shape[1..])),
+                }
+            }
+            let mut tys: Vec<String> = vec![];
+            for b in bases.iter() { for sh in shapes.iter() { tys.push(wrap(b, sh)); } }
+            let args = |pre: &str, f: &dyn Fn(usize, &str) -> String| tys.iter().enumerate().map(|(k, t)| format!("{}{}: {}", pre, k, f(k, t))).collect::<Vec<_>>().join(", ");
+            let plain = args("a", &|_, t| t.to_string());
+            let listed = args("l", &|_, t| format!("[{}]", t));
+            let boxed = args("box", &|k, _| format!("Box{}", k));
+            let boxes = tys.iter().enumerate().map(|(k, t)| format!("input Box{} {{ v: {} }}", k, t)).collect::<Vec<_>>().join("\n");
+            let sdl = format!("{}\nscalar Custom\nenum Color {{ RED GREEN }}\ninput In {{ req: Int!  opt: String  lst: [Int!]  nest: In  dflt: Int! = 3  col: Color  cust: Custom }}\n{}\ntype Query {{ f({}, {}, {}): Int  w: W }}\ntype W {{ g({}): Int }}\ndirective @d({}) on FIELD | QUERY\n",
+                schemas::PRELUDE, boxes, plain, listed, boxed, plain, plain);
+            let si = gen::SchemaInfo::new("vals", &sdl);
+            out.schema(&si);
+            // literals
+            let l1: Vec<String> = ["1", "2147483648", "-2147483649", "1.5", "\"s\"", "true", "null", "RED", "PURPLE", "$v"].iter().map(|x| x.to_string()).collect();
+            let red: Vec<String> = ["1", "\"s\"", "null", "RED", "$v"].iter().map(|x| x.to_string()).collect();
+            let mut l2: Vec<String> = vec!["[]".into(), "{}".into(), "{req: 1, zz: 1}".into(), "{opt: \"s\"}".into(), "{zz: 1}".into()];
+            for x in &l1 { l2.push(format!("[{}]", x)); }
+            for x in &red { for y in &red { l2.push(format!("[{}, {}]", x, y)); } }
+            for key in ["req", "opt", "lst", "nest", "col", "cust", "dflt"] {
+                for x in &l1 { l2.push(if key == "req" { format!("{{req: {}}}", x) } else { format!("{{req: 1, {}: {}}}", key, x) }); }
+            }
+            let mut l3: Vec<String> = vec!["[[]]".into(), "[[], [1]]".into(), "[{}]".into(), "[[[]]]".into()];
+            for x in &l1 {
+                l3.push(format!("[[{}]]", x)); l3.push(format!("[[[{}]]]", x)); l3.push(format!("[1, [{}]]", x));
+                l3.push(format!("[{{req: {}}}]", x)); l3.push(format!("{{req: 1, nest: {{req: {}}}}}", x));
+                l3.push(format!("{{req: 1, lst: [{}]}}", x)); l3.push(format!("{{req: 1, lst: [1, {}]}}", x));
+                l3.push(format!("{{req: 1, nest: {{req: 1, nest: {{req: {}}}}}}}", x));
+                l3.push(format!("{{req: 1, nest: {{req: 1, lst: [{}]}}}}", x));
+                l3.push(format!("[[1], [{}]]", x)); l3.push(format!("[{{req: 1, lst: [{}]}}]", x));
+                l3.push(format!("{{req: 1, cust: [{{a: {}}}]}}", x));
+            }
+            let lits: Vec<String> = l1.iter().chain(l2.iter()).chain(l3.iter()).cloned().collect();
+            let mut i = 0usize;
+            for (k, t) in tys.iter().enumerate() {
+                for lit in &lits {
+                    let docs = [
+                        format!("{{ f(a{}: {}) }}", k, lit),
+                        format!("{{ f @d(a{}: {}) }}", k, lit),
+                        format!("query ($x: {} = {}) {{ f }}", t, lit),
+                        format!("{{ w {{ g(a{}: {}) }} }}", k, lit),
+                        format!("{{ f(box{}: {{v: {}}}) }}", k, lit),
+                        format!("{{ f(l{}: [{}]) }}", k, lit),
+                    ];
+                    for (p, d) in docs.iter().enumerate() {
+                        if thorough || p == i % docs.len() || (p == 0 && shapes[k % shapes.len()].len() <= 1) { crate::valcases::rules_case(&si, d, &rules, &tmp, out); }
+                    }
+                    i += 1;
+                }
+            }
+            // unknown owners: nothing is expected, nothing is reported
+            for lit in &lits { crate::valcases::rules_case(&si, &format!("{{ f(zz: {}) nope(a0: {}) @nope(a0: {}) }}", lit, lit, lit), &rules, &tmp, out); }
+            for si in pool() {
+                out.schema(&si);
+                for t in corpus_docs(corpus, &si.name) { crate::valcases::rules_case(&si, &t, &rules, &tmp, out); }
+                for t in random_docs(&si, &mut rng, 100 * scale, 5) { crate::valcases::rules_case(&si, &t, &rules, &tmp, out); }
+            }
+        }
         "c09" => {
             let tmp = tmpdir();
             let rules = ["KnownArgumentNames", "UniqueArgumentNames", "ProvidedRequiredArguments"];
